@@ -51,6 +51,13 @@ def scenarios(run):
             cfg = dict(base, N=1, r=2.5, seed=sd, kpre=kpre, nsym=3, iters_limit=kpre + 2,
                        script=[('iter', kpre), ('keep',), ('other', 2), ('iter', 1), ('results',), ('other-solve',), ('solve',)], tags=['prefix'])
             out.append((cfg, 'prefix f#%d (%d concrete values): batches, sibling solver in between, poll, Solve' % (sd, kpre)))
+    for sd in seeds[:3]:
+        # the run ends because the accuracy criterion fires (eps symbolic): the very last trial may be the new optimum
+        cfg = dict(base, N=1, r=2.5, seed=sd, kpre=2, nsym=3, script=[('solve',), ('results',)], iters_limit=5, eps='sym', tags=['stopped-by-accuracy'])
+        out.append((cfg, 'Solve stopped by a symbolic eps: prefix f#%d (2 concrete values) + arbitrary values' % sd))
+    for sd in seeds[:2]:
+        cfg = dict(base, N=1, r=2.5, seed=sd, kpre=5, nsym=2, script=[('iter', 6), ('solve',)], iters_limit=7, box=([2e-5], [3e-5]), tags=['narrow-box'])
+        out.append((cfg, 'narrow box [2e-5, 3e-5]: prefix f#%d (5 concrete values) + arbitrary values' % sd))
     return out
 
 
@@ -71,7 +78,7 @@ def main():
     agp.confirm(run, WANT)
     run.finish('after every iteration, inside every listener callback, in polled and returned Solutions the best trial is an evaluated point, '
                'its value is the objective there, and no evaluated trial is smaller',
-               vacuity=['recalc-pending', 'recalc-not-pending', 'new-optimum', 'optimum-kept', 'fresh', 'prefix'])
+               vacuity=['recalc-pending', 'recalc-not-pending', 'new-optimum', 'optimum-kept', 'fresh', 'prefix', 'narrow-box', 'stopped-by-accuracy'])
 
 
 if __name__ == '__main__':
